@@ -2,6 +2,7 @@ import Xo.Drv.Alloc
 import Xo.Drv.Topo
 import Xo.Drv.CApi
 import Xo.Drv.Spec
+import Xo.Drv.BufPrim
 /-! `lake env lean --run Driver.lean <component>` : stdin ops → stdout results -/
 def main (args : List String) : IO UInt32 := do
   let i ← IO.getStdin
@@ -10,5 +11,6 @@ def main (args : List String) : IO UInt32 := do
   | ["alloc"] => Drv.loop i o Drv.AllocD.step Drv.AllocD.init; return 0
   | ["capi"] => Drv.loop i o Drv.CApiD.step Drv.CApiD.init; return 0
   | ["spec"] => Drv.loop i o Drv.SpecD.step (); return 0
+  | ["prim"] => Drv.loop i o Drv.PrimD.step (); return 0
   | ["topo"] => Drv.loop i o Drv.TopoD.step (); return 0
   | _ => IO.eprintln "usage: Driver.lean <component>"; return 2
